@@ -185,6 +185,9 @@ func (s *session) capture(c fiber.Ctx, step int, keep bool) []*entry {
 	}
 	S("Route.Path", "", c.Route().Path)
 	SS("Route.Params", "", c.Route().Params)
+	if u, err := c.GetRouteURL("named", fiber.Map{"id": c.Params("id"), "name": c.Query("q")}); err == nil {
+		S("GetRouteURL", "named", u) // built from the route and from request values
+	}
 	S("GetRespHeader", "X-Echo", c.GetRespHeader("X-Echo"))
 	F("GetRespHeader", "default-given", "X-Echo", c.GetRespHeader("X-Echo", dfltStr), dfltStr)
 	MSL("GetRespHeaders", "", c.GetRespHeaders())
